@@ -24,6 +24,20 @@ def lean_stage(pid, P):
             res["digests"].update(vlib.statement_digests(f))
     theorems += P.get("extra_theorems", [])
     res["theorems"] = theorems
+    # "translation tie" files: property files that rest on the modules regenerated from the C text
+    # (Generated/Guards.lean, Generated/Funcs.lean).  They are a SECOND tie between model and code; when
+    # only they break (an edited guard, a construct the translators cannot parse, a harmless rewrite) the
+    # first tie - the differential correspondence - decides: the check intensifies the search for a
+    # failing input and raises a violation only if it finds one.
+    GEN = {"CollectionsC.Generated.Guards", "CollectionsC.Generated.Funcs"}
+    def is_aux_module(m):
+        return m in GEN or bool(GEN & lean_deps(m, set()))
+    aux_files = [f for f in files if f.exists() and is_aux_module(".".join(f.relative_to(LEAN).with_suffix("").parts))]
+    aux_theorems = set()
+    for f in aux_files:
+        aux_theorems.update(vlib.lean_theorems(f))
+    res["aux_theorems"] = sorted(aux_theorems)
+    res["aux_broken"] = []
     res["forbidden"] = vlib.forbidden_tokens()
     if not ok:
         # which of this property's obligations are affected?  any failed module that the property
@@ -35,18 +49,31 @@ def lean_stage(pid, P):
                 lean_deps(".".join(f.relative_to(LEAN).with_suffix("").parts), deps)
         hit = sorted(m for m in mods if m in deps)
         res["broken_modules"] = hit
-        if hit or not mods:
+        hit_main = [m for m in hit if not is_aux_module(m)]
+        if hit_main or not mods:
             res["broken"] = theorems or [f"CollectionsC.Properties.{pid}"]
             if not mods:
                 res["problems"].append("lake build failed without naming a module: " + "; ".join(errs[:3]))
         else:
-            ok = True   # the failure is in a module this property does not depend on
+            if hit:      # only translation-tie modules failed
+                res["aux_broken"] = sorted(aux_theorems)
+                res["problems"].append("translation tie no longer builds: " + ", ".join(hit))
+            ok = True   # the failure is in a module this property does not (otherwise) depend on
     if ok and theorems:
-        mods = [".".join(f.relative_to(LEAN).with_suffix("").parts) for f in files if f.exists()]
-        ax = vlib.audit_axioms(theorems, mods or ["CollectionsC"])
+        modname = lambda f: ".".join(f.relative_to(LEAN).with_suffix("").parts)
+        mods_main = [modname(f) for f in files if f.exists() and f not in aux_files]
+        mods_aux = [modname(f) for f in aux_files]
+        main_thms = [t for t in theorems if t not in aux_theorems]
+        ax = vlib.audit_axioms(main_thms, mods_main or ["CollectionsC"]) if main_thms else {}
+        if aux_theorems:
+            ax.update(vlib.audit_axioms(sorted(aux_theorems), mods_aux))
         res["axioms"] = ax
         for t, a in ax.items():
             if a is None:
+                if t in aux_theorems:
+                    if t not in res["aux_broken"]:
+                        res["aux_broken"].append(t)
+                    continue
                 res["broken"].append(t)
                 res["problems"].append(f"theorem {t} not found in the built library")
             elif not set(a) <= vlib.ALLOWED_AXIOMS:
@@ -69,7 +96,7 @@ def lean_stage(pid, P):
                   and (lambda m: not m or m.group(1) in txt)(re.match(r"gen_\w+: (?:struct )?(\w+) \(", e))]
             if gp:
                 res["problems"] += [e for e in gp if e not in res["problems"]]
-                res["broken"] += [t for t in vlib.lean_theorems(f) if t not in res["broken"]]
+                res["aux_broken"] += [t for t in vlib.lean_theorems(f) if t not in res["aux_broken"]]
     res["failed_all"] = failed
     return res
 
@@ -372,6 +399,7 @@ def run_check(pid, tier, seed, replay=None):
         return vlib.driver_path(container).exists() and not (bad & set(lean["failed_all"]))
 
     violations, fidelity, stats, all_samples, known_lines = [], [], [], [], []
+    aux_notes = []
     todo = []
     for cspec in P["streams"]:
         c = cspec["container"]
@@ -450,6 +478,20 @@ def run_check(pid, tier, seed, replay=None):
             with open(path, "a") as f:
                 f.write("# correspondence that no longer checks: concrete model of '%s' vs the C code (layer L3)\n" % container)
                 f.write("# theorems about this model that are no longer tied to the code: %s\n" % ", ".join(lean["theorems"]))
+        if lean.get("aux_broken") and not lean["broken"] and not fidelity:
+            # only the translation tie broke: intensified search; a violation only with a failing input
+            found = None
+            for cspec in todo:
+                found = search_failing_input(P, pid, cspec["container"], None, [], rng, tier)
+                if found:
+                    report(cspec["container"], found[0], found[1])
+                    break
+            if not found:
+                note = (f"NOTE property={pid}: the translation tie (theorems regenerated from the C text) no longer checks: "
+                        + ", ".join(lean["aux_broken"][:6]) + (" …" if len(lean["aux_broken"]) > 6 else "")
+                        + "; the correspondence tie is intact and the intensified search found no failing input")
+                print(note, flush=True)
+                aux_notes.append(note)
         if lean["broken"] and not fidelity:
             found = None
             for cspec in todo:
@@ -485,7 +527,7 @@ def run_check(pid, tier, seed, replay=None):
     # ---- evidence
     wall = time.time() - t0
     obligations = len(lean["theorems"])
-    discharged = len([t for t in lean["theorems"] if t not in lean["broken"]])
+    discharged = len([t for t in lean["theorems"] if t not in lean["broken"] and t not in lean.get("aux_broken", [])])
     ev = dict(
         property_id=pid, tier=tier, seed=seed, level=P.get("level", "proof"),
         coverage=dict(
@@ -496,6 +538,8 @@ def run_check(pid, tier, seed, replay=None):
             theorems=lean["theorems"], axioms=lean["axioms"], statement_digests=lean["digests"],
             partial_theorems=[t for t in lean["theorems"] if "partial" in t.lower()],
             lean_problems=lean["problems"], leanchecker=leanchecker,
+            translation_tie_theorems=lean.get("aux_theorems", []), translation_tie_broken=lean.get("aux_broken", []),
+            translation_tie_notes=aux_notes,
             evaluations=sum(s["operations"] for s in stats),
             distinct_nontrivial=sum(s["distinct_op_status_layout"] for s in stats),
             rule="evaluations = operations executed on the real library (ASan+UBSan build of the current /repo tree) and "
